@@ -676,6 +676,89 @@ func init() {
 			r.Site(itLit.Pos(), "mergesort.Merge flushes the pending item at exhaustion")
 		}})
 
+	register(&Obligation{ID: "C19.j", Props: []string{"C19", "C07", "C03"}, Template: "order-domain",
+		Desc: "ziptree.AscendPrefix's search phase stops exactly at a node whose key equals the prefix, goes left (remembering the node) exactly when the prefix is smaller than the node's key and right otherwise - decided over every ordering of (prefix, node key); the emit phase yields a node iff its key has the prefix",
+		Run: func(r *Run) {
+			f := r.P.Func("dkv/ziptree", "(*ZipTree).AscendPrefix")
+			info := f.Pkg.TypesInfo
+			left := r.P.Field("dkv/ziptree", "Node", "left")
+			right := r.P.Field("dkv/ziptree", "Node", "right")
+			keyF := r.P.Field("dkv/ziptree", "Node", "Key")
+			lit := firstLit(f.Decl.Body)
+			if lit == nil {
+				r.Error("undecided: AscendPrefix no longer returns an iterator literal")
+				return
+			}
+			// the search loop: the first loop of the literal that steps cur = cur.left / cur.right
+			var loop *ast.ForStmt
+			var cur types.Object
+			ast.Inspect(lit.Body, func(nd ast.Node) bool {
+				fs, ok := nd.(*ast.ForStmt)
+				if !ok || loop != nil {
+					return true
+				}
+				ast.Inspect(fs.Body, func(m ast.Node) bool {
+					if as, ok := m.(*ast.AssignStmt); ok && len(as.Lhs) == 1 && len(as.Rhs) == 1 && prog.SelField(info, as.Rhs[0]) == right {
+						if sel, ok := ast.Unparen(as.Rhs[0]).(*ast.SelectorExpr); ok && prog.IdentObjPlain(info, as.Lhs[0]) == prog.IdentObjPlain(info, sel.X) {
+							loop, cur = fs, prog.IdentObjPlain(info, as.Lhs[0])
+						}
+					}
+					return true
+				})
+				return true
+			})
+			if loop == nil || cur == nil {
+				r.Error("undecided: AscendPrefix has no search loop stepping through left / right children")
+				return
+			}
+			r.Site(loop.Pos(), "AscendPrefix search phase")
+			pn := f.Obj.Type().(*types.Signature).Params().At(0).Name()
+			m := orderdom.New(info, map[string]string{cur.Name() + "." + keyF.Name(): "k", pn: "p"})
+			m.IgnoreStores = true
+			m.AssignEffectName = func(o types.Object, rhs ast.Expr) string {
+				if o != cur {
+					return ""
+				}
+				switch prog.SelField(info, rhs) {
+				case left:
+					return "left"
+				case right:
+					return "right"
+				}
+				return ""
+			}
+			res := m.CheckBody(loop.Body.List, nil, func(e odEnv) orderdom.Value {
+				switch {
+				case e.Rank["p"] == e.Rank["k"]:
+					return orderdom.Sym("end")
+				case e.Rank["p"] < e.Rank["k"]:
+					return orderdom.Sym("left")
+				}
+				return orderdom.Sym("right")
+			})
+			r.finishOD(f.Name()+":search", loop.Pos(), res, "stop iff node key == prefix; left iff prefix < node key; right otherwise")
+			// emit phase: yield(cur) is guarded by bytes.HasPrefix(cur.Key, prefix) with the operands in this order
+			okEmit := false
+			inspect(lit.Body, func(nd ast.Node) bool {
+				call, ok := nd.(*ast.CallExpr)
+				if !ok || nd.Pos() < loop.End() {
+					return true
+				}
+				if c, ok := isCallToNamed(info, call, "bytes", "HasPrefix"); ok && len(c.Args) == 2 {
+					r.Site(c.Pos(), "AscendPrefix emit test")
+					if prog.SelField(info, c.Args[0]) == keyF && r.isParam(f, c.Args[1], 0) {
+						okEmit = true
+					} else {
+						r.Fail(f.Name()+":emit-test", c.Pos(), nil, "the emit phase must test bytes.HasPrefix(node key, prefix): with the operands swapped only keys that are prefixes OF the prefix are yielded")
+					}
+				}
+				return true
+			})
+			if !okEmit {
+				r.Fail(f.Name()+":emit-test", lit.Pos(), nil, "the emit phase no longer tests that the node's key has the prefix")
+			}
+		}})
+
 	register(&Obligation{ID: "C19.g", Props: []string{"C19", "C07"}, Template: "order-domain",
 		Desc: "ziptree.Get and ziptree.Put descend to the left child exactly for smaller keys and to the right child exactly for greater keys, Get reports equality as found; a replacing Put copies the replaced node's children and rank and re-links the parent (or the root)",
 		Run: func(r *Run) {
